@@ -199,6 +199,15 @@ Section Scanner.
     forall t, process (m ++ t) = Err e.
   Definition info_fails (m : list byte) (e : err) : Prop :=
     forall t, process_info (m ++ t) = Err e.
+
+  (* a valid message for the mode: the decode the scanner performs succeeds on
+     m ++ t for every t with the same result, and the length it advances by
+     (consumed bytes in full mode, declared total length in metadata-only mode)
+     is the length of m *)
+  Definition valid_msg (info_only : bool) (m : list byte) : Prop :=
+    if info_only then info_ok m else full_ok m.
+  Definition fails (info_only : bool) (m : list byte) (e : err) : Prop :=
+    if info_only then info_fails m e else full_fails m e.
 End Scanner.
 
 (* sub occurs in s as a contiguous substring *)
@@ -212,3 +221,8 @@ Fixpoint assemble (l : list (list byte * list byte)) : list byte :=
   | [] => []
   | (m, sp) :: l' => m ++ sp ++ assemble l'
   end.
+
+(* every message of the stream starts with the signature, satisfies P, and is
+   followed by a separator that does not contain the signature *)
+Definition stream_ok (P : list byte -> Prop) (l : list (list byte * list byte)) : Prop :=
+  Forall (fun x => starts_sig (fst x) /\ nosig (snd x) /\ P (fst x)) l.
